@@ -37,18 +37,18 @@ DIVDEF_Q = [('milli', 'sec'), ('sec', 'sec'), ('min', 'hour')]
 FLOAT_PAIRS_Q = [('milli', 'sec'), ('sec', 'milli'), ('r5_7', 'ntsc'), ('min', 'third')]
 # mixed Rep: (REPW, REP2W) -> per tier the (From period, To period) pairs and the solver order that was measured to finish
 MIXED = {
-    (32, 64): dict(quick=[('min', 'third')], more=[('sec', 'milli'), ('milli', 'sec')], solver=['kissat']),
-    (64, 16): dict(quick=[('min', 'third')], more=[('sec', 'milli')], solver=['kissat']),
-    (132, 164): dict(quick=[('sec', 'milli'), ('min', 'third')], more=[('milli', 'sec'), ('r5_7', 'ntsc')], solver=['kissat', 'cvc5']),
-    (164, 132): dict(quick=[('sec', 'milli'), ('min', 'third')], more=[('milli', 'sec'), ('r5_7', 'ntsc')], solver=['cvc5', 'kissat']),
+    (32, 64): dict(quick=[('min', 'third')], more=[('sec', 'milli'), ('milli', 'sec')], solver=['cvc5', 'z3', 'kissat']),
+    (64, 16): dict(quick=[('min', 'third')], more=[('sec', 'milli')], solver=['cvc5', 'z3', 'kissat']),
+    (132, 164): dict(quick=[('sec', 'milli'), ('min', 'third')], more=[('milli', 'sec')], solver=['kissat', 'cvc5']),
+    (164, 132): dict(quick=[('sec', 'milli'), ('min', 'third')], more=[('milli', 'sec')], solver=['cvc5', 'kissat']),
     (164, 32): dict(quick=[('sec', 'milli'), ('min', 'third')], more=[('hour', 'min')], solver=['cvc5', 'kissat']),
     # integer operand with a factor other than 1 into a floating common type: (double)(a * 1000) == (double)a * 1000.0 gets no
     # verdict from any back end even for |a| < 2^12, so ('sec','milli') only carries the confirm query of the known finding
     (64, 164): dict(quick=[('milli', 'sec'), ('sec', 'milli')], more=[], solver=['cvc5', 'kissat'], confirm_only=[('sec', 'milli')]),
 }
 
-# (Rep width, From, To) for which cvc5 gives no verdict on round == std::chrono over the whole domain (measured, 40 s budget)
-ROUND_STD_HARD = {(w, f, t) for w in (32, 64) for (f, t) in [
+# (From, To) for which cvc5 gives no verdict on round == std::chrono over the whole domain (measured, 40 s budget)
+ROUND_STD_HARD = {(f, t) for (f, t) in [
     ('nano', 'third'), ('nano', 'ntsc'), ('micro', 'third'), ('micro', 'r5_7'), ('micro', 'ntsc'), ('milli', 'r5_7'), ('milli', 'third'),
     ('ntsc', 'milli'), ('ntsc', 'sec'), ('ntsc', 'min'), ('ntsc', 'hour'), ('ntsc', 'day'), ('ntsc', 'third'), ('ntsc', 'r5_7')]}
 
@@ -141,7 +141,7 @@ def int_queries(tier, w, f, t, arith=True, rlim_div=None, dlim=6, bud=90, divdef
         add('q_tp_casts', SMT)
     if wide(D['round']):
         add('q_round', (SMT + SAT) if rlim == 0 and not full16 else SAT)
-        if (w, f, t) not in ROUND_STD_HARD:
+        if (f, t) not in ROUND_STD_HARD:
             add('q_round_std', SMT)
         if D['cn'] == 1 and 1 < D['cd'] < (1 << 18) and D['round'][0] <= -2 * D['cd'] and D['round'][1] >= 2 * D['cd']:
             add('q_reach', SAT)
@@ -149,7 +149,7 @@ def int_queries(tier, w, f, t, arith=True, rlim_div=None, dlim=6, bud=90, divdef
         # products by factors >= 2^30 (and every int64 product) are formed in 128 bit by the oracle: cvc5's bit-vector solver first
         small = w <= 32 and max(D['cn'], D['cd'], D['ff'], D['tf']) < (1 << 30)
         bvs = (SAT + ['cvc5']) if small else ['cvc5', 'kissat']
-        add('q_add', SMT + ['z3'] + SAT); add('q_sub', SMT + ['z3'] + SAT); add('q_common', bvs); add('q_cmp', bvs); add('q_tp_cmp', bvs)
+        add('q_add', ['z3'] + SMT + SAT); add('q_sub', ['z3'] + SMT + SAT); add('q_common', bvs); add('q_cmp', bvs); add('q_tp_cmp', bvs)
         add('q_moddiv', SMT); add('q_moddef', (SAT + SMT) if small else (SMT + SAT))
         if divdef and (w == 32 or (f, t) == ('milli', 'sec')):
             add('q_divdef', SAT)
@@ -176,7 +176,7 @@ def float_queries(w, f, t, bud):
 def mixed_queries(w1, w2, f, t, bud, solver, confirm_only=False):
     fn, fd = PERIODS[f]; tn, td = PERIODS[t]
     cfg = {'REPW': w1, 'REP2W': w2, 'FN': fn, 'FD': fd, 'TN': tn, 'TD': td}
-    out = [dict(entry='q_mixed', cfg=cfg, unwind=3, solver=solver, budget=bud, confirm_only=confirm_only)]
+    out = [dict(entry='q_mixed', cfg=cfg, unwind=3, solver=solver, budget=min(bud, 120), smt_budget=45, witness_solver='kissat', confirm_only=confirm_only)]
     if w2 > 100 and not confirm_only:
         out.append(dict(entry='q_mcast', cfg=cfg, unwind=3, solver=SMTF, budget=bud))
     return out
@@ -216,6 +216,7 @@ def queries(tier, prop='C12'):
                 continue
             if (c['FN'], c['FD'], c['TN'], c['TD']) not in keepc and c['REPW'] < 100 and 'REP2W' not in c:
                 continue
-            sub.append(dict(q, ub=True, nofunc=True))
+            # a query whose UB build has no obligation at all yields an empty VC (no verdict on the SMT route): SAT back end last
+            sub.append(dict(q, ub=True, nofunc=True, solver=list(q['solver']) + [x for x in SAT if x not in q['solver']]))
         return sub
     return out
